@@ -328,3 +328,65 @@ def run_c05(tier, replay=None):
         trusted=["TLC 1.8.0", "hooks H2 (add-only events; JULY events are emitted while the mutex is held, sequence numbers from one atomic counter)", "md5 digests of as_json text / canonical serde_json::Value"],
         assumptions=["MONTHLY and META guards are temporaries: their acquisition is internal between Request and Done; mutual exclusion of those is Rust's guarantee",
                      "reference pairs are compared as JSON values (two shipped references differ from today's text only in the float formatter: 1e30 vs 1e+30)"])
+
+
+# ------------------------------------------------------------------------------------ C20
+
+def run_c20(tier, replay=None):
+    quick = tier == "quick"
+
+    def record(wd, tier, cases_file, payload):
+        trace = os.path.join(wd, "trace.ndjson")
+        st = vh(["solar", "--out", trace] + ([] if quick else ["--full"]), timeout=3600)
+        return trace, st
+
+    def first(ev, kind, pred=lambda e: True):
+        for e in ev:
+            if e["ev"] == kind and pred(e):
+                return e
+
+    def ctl_day(ev):
+        e = first(ev, "Nday", lambda e: e["m"] == 3 and e["d"] == 1)
+        e["md"] += 1
+        return [e], "day of year of 1 March + 1", "DayOfYearAgreesWithCalendar"
+
+    def ctl_sun(ev):
+        e = first(ev, "SunVec", lambda e: e["got"][2] > 3000 and abs(e["got"][0]) > 2000)
+        e["got"][0] = -e["got"][0]
+        return [e], "east and west swapped in the sun direction", "SunDirectionAgreesWithSphericalAstronomy"
+
+    def ctl_inc(ev):
+        e = first(ev, "Incidence", lambda e: abs(e["gotcos"]) > 2000)
+        e["gotcos"] = e["gotcos"] - 300
+        return [e], "cosine of incidence off by 0.03", "IncidenceIsAngleBetweenSunAndOutwardNormal"
+
+    def ctl_rad(ev):
+        e = first(ev, "RadDay", lambda e: max(e["hin"]) > 5000)
+        i = e["hin"].index(max(e["hin"]))
+        e["hout"][i] = int(e["hout"][i] * 0.97)
+        return [e], "horizontal surface loses 3% at noon", "HorizontalSurfaceReceivesHorizontalInput"
+
+    def ctl_zone(ev):
+        e = first(ev, "Zone")
+        e["monthly"] = e["monthly"][1:]
+        return [e], "one orientation missing from a zone's monthly table", "NineMonthlyEntries"
+
+    def ctl_table(ev):
+        e = first(ev, "TableVsModel", lambda e: e["table"] > 3000)
+        e["table"] = int(e["table"] * 1.02)
+        return [e], "a monthly table value 2% off the radiation model", "MonthlyTableEqualsRadiationModel"
+
+    return generic_trace_check(
+        "C20", tier, replay,
+        mc=[("MC_Solar", "MC_Solar.cfg", "MC_Solar.cfg", 2, None)],
+        record=record, trace_module="Trace_Solar",
+        controls=[ctl_day, ctl_sun, ctl_inc, ctl_rad, ctl_zone, ctl_table],
+        nontrivial=lambda events: set(json.dumps({k: v for k, v in e.items() if k in ("ev", "m", "d", "decl", "hour", "lat", "tilt", "az", "month", "day", "zone", "orient", "what")}, sort_keys=True) for e in events),
+        rule="365 dates; 32 zones (metadata, July-day series, 9 monthly entries); sun direction for 3 declinations x 5 latitudes x 17 hour angles of the rational-angle family; incidence for those x 7 tilts x 9 azimuths; the 8,760 hours of zonaD3.met on horizontal, downward and the 9 class orientations; 9 x 12 x 2 monthly table entries and the July-day rows of zone D3; distinct by parameters",
+        samples_of=lambda events: [first(events, k) for k in ("Nday", "SunVec", "Incidence", "Zone", "TableVsModel", "JulyVsMet")],
+        key_of=lambda e, name: "%s:%s" % (name, json.dumps({k: e.get(k) for k in ("m", "d", "decl", "hour", "lat", "zone", "orient", "month") if k in e})),
+        checker_cmd="tlc MC_Solar.cfg; tlc Trace_Solar.cfg (TRACE=work/C20/trace.ndjson)",
+        trusted=["TLC 1.8.0", "harness solar.rs (atan2 to turn rational angles into degrees; quantisation 1e-4)", "the public statics MONTHLYRADDATA / JULYRADDATA / CLIMATEMETADATA as the access path to the tables"],
+        assumptions=["angles are exact only on the rational family (hypotenuse <= 13); the 0.5 degree grid of the quantifier is replaced by it (DESIGN section 10)",
+                     "Perez coefficients and the declination series are exercised, not decided",
+                     "table = model uses the (beta, gamma) stored in the table entry itself"])
